@@ -534,8 +534,8 @@ func (c06) Run(sc *Scenario) *Verdict {
 		for ki, k := range sc.OrderKeys {
 			ctx := sim.NewOpCtx(k, StepBudgetDefault)
 			ctx.Funcs = FuncCounts
-			var b []byte
-			var encErr error
+			var b, again []byte
+			var encErr, againErr error
 			var mkErr error
 			out := sim.RunSeq(ctx, func() {
 				var t interface{}
@@ -544,9 +544,15 @@ func (c06) Run(sc *Scenario) *Verdict {
 					return
 				}
 				b, encErr = json.Marshal(t)
+				if encErr == nil {
+					again, againErr = json.Marshal(t) // the very same value once more (other map orders: the arrival counters moved on)
+				}
 			})
 			v.Steps += out.Steps
 			v.OrderSig = sim.Mix(v.OrderSig, ctx.OrderHash)
+			if out.Panic == "" && mkErr == nil && encErr == nil && (againErr != nil || !bytes.Equal(b, again)) {
+				return v.fail("same-value-encoded-twice-differs", "value %d (%s): encoding the same value a second time gives another result (%v):\n first  %s\n second %s", vi, kind, againErr, b, again)
+			}
 			if out.Panic != "" {
 				v.Inconclusive = "codec panicked (C07 territory): " + out.Panic
 				break
